@@ -34,7 +34,8 @@ def run(ctx):
     rnd = random.Random(ctx.seed)
     for scale, (topu, ppu) in SCALES.items():
         files = {"ref.cfg": cfg(3, 1, "AccSmall", "S13", topu, "RefSound"),
-                 "g3.cfg": cfg(4, 1, "AccMin2" if q else "AccMin", "S1" if q else "S13", topu),
+                 # the large scale starts at 3 units (3 GiB): addresses at and above 2^31 are in bounds there
+                 "g3.cfg": cfg(4, 1, "AccMin2" if q else "AccMin", ("S1" if scale == "x1" else "S3") if q else "S13", topu),
                  "sim.cfg": cfg(7 if q else 9, 2, "AccWide", "S13", topu)}
         ctx.tlc("MemAccessMC", "ref.cfg", extra_files=files, tag="design:reference-semantics:" + scale)
         got = ctx.tlc("MemAccessMC", "g3.cfg", extra_files=files, design=False, tag="gen:" + scale)["emitted"]
@@ -47,7 +48,7 @@ def run(ctx):
         got += sim
         for k, p in enumerate(got):
             p["scale"], p["topu"] = ppu, topu
-            p["const"] = (k % (4 if q else 2) == 0)
+            p["const"] = (k % 2 == 0)
         ctx.extra.setdefault("programs", {})[scale] = len(got)
         progs += got
     results = ctx.replay("replay-memacc", progs, timeout=3400)
